@@ -182,6 +182,9 @@ func (fg *FuncGen) ScriptVia(blk, via int) string {
 						fmt.Fprintf(&out, "(assert (= reach_%d %s))\n", blk, fg.edgeReach(fg.fn.Blocks[via], b))
 						continue
 					}
+					if strings.Contains(l, "; @initdef") {
+						continue // entry condition of a loop over all its entry edges: this slice has one of them
+					}
 					out.WriteString(l)
 				}
 				continue
@@ -1033,7 +1036,9 @@ func (fg *FuncGen) loopHead(li *loopInfo, fwd []*ssa.BasicBlock, in string, rnam
 	b := li.header
 	li.initSt = fg.st.Copy()
 	li.initReach = fg.fresh("linit")
-	fg.emitDef("%s", "Bool", "%s", li.initReach, in)
+	fg.emit("(declare-const %s Bool)", li.initReach)
+	fg.emit("(assert (= %s %s)) ; @initdef", li.initReach, in)
+	firstInit := len(fg.obls)
 	// init values of phis
 	initVals := map[*ssa.Phi]string{}
 	for _, instr := range b.Instrs {
@@ -1078,6 +1083,24 @@ func (fg *FuncGen) loopHead(li *loopInfo, fwd []*ssa.BasicBlock, in string, rnam
 				continue
 			}
 			fg.obl("inv.init", fmt.Sprintf("loop%d.inv%d.init", li.ordinal, i+1), li.pos, pick(inv.Tags, tags), t.S, inv.Text)
+		}
+	}
+	// establishment from many entry edges: one obligation per edge, each on the slice of its own edge
+	if len(fwd) >= 4 {
+		orig := append([]*Obligation{}, fg.obls[firstInit:]...)
+		fg.obls = fg.obls[:firstInit]
+		for _, o := range orig {
+			if o.Guard != li.initReach {
+				fg.obls = append(fg.obls, o)
+				continue
+			}
+			for k, q := range fwd {
+				c := *o
+				c.Name = fmt.Sprintf("%s~%d", o.Name, k+1)
+				c.Guard = fg.edgeReach(q, b)
+				c.Via = q.Index
+				fg.obls = append(fg.obls, &c)
+			}
 		}
 	}
 	// havoc
@@ -1288,6 +1311,8 @@ func (fg *FuncGen) finishReturns() {
 	for k, b := range fg.retBlocks {
 		fg.segIdx = b.Index
 		fg.curReach = fg.reach[b]
+		first := len(fg.obls)
+		defer func(first int, b *ssa.BasicBlock) { fg.splitByPred(first, b, fg.reach[b]) }(first, b)
 		env := fg.funcEnv(fg.retSt[b], State{}, fg.retVals[b])
 		if merge {
 			// many returns x many clauses: one obligation per return (conjunction of all postconditions)
@@ -1430,7 +1455,7 @@ func (g *Gen) assignFamilies(a string, fn *ssa.Function) []string {
 	if i := strings.Index(a, "@"); i > 0 {
 		fam := a[i+1:]
 		srt := "(Array Int Int)"
-		if fam == "B_ok" {
+		if fam == "B_ok" || fam == "B_okprev" {
 			srt = "(Array Int Bool)"
 		}
 		g.Family(fam, srt)
